@@ -443,3 +443,257 @@ def oracle_trace(o):
             if s is not None and content != value(s):
                 out.append(("result-differs-from-sequential-build", "content of %s is %r, a sequential build gives %r" % (p, content, value(s))))
     return out
+
+
+# ---------------------------------------------------------------------------- JobServerSemaphore alone on a real FIFO
+
+def sem_alone_run(args):
+    """k tasks on n tokens: random acquire / release orders (several commands may be issued in the same
+    loop iteration, so hand-overs in flight are exercised) and a child make that takes/returns tokens, on a
+    real FIFO and a real asyncio loop.  Returns the recorded ops with the semaphore's state after each."""
+    repo, seed, recursive, n_tokens, k, nops = args
+    import asyncio
+    import random
+    import selectors
+    import tempfile
+    import shutil
+    import array
+    import fcntl
+    import termios
+    if os.path.join(repo, "pym") not in sys.path:
+        sys.path.insert(0, os.path.join(repo, "pym"))
+    from bob.builder import JobServerSemaphore
+    r = random.Random("sem-%s" % (seed,))
+    tmp = tempfile.mkdtemp(prefix="c06sem-")
+    log = []          # [op, arg, result, snapshot]
+
+    def fion(fd):
+        buf = array.array('i', [0])
+        fcntl.ioctl(fd, termios.FIONREAD, buf)
+        return buf[0]
+    try:
+        fifo = os.path.join(tmp, "f")
+        os.mkfifo(fifo)
+        rfd = os.open(fifo, os.O_RDONLY | os.O_NONBLOCK)
+        wfd = os.open(fifo, os.O_WRONLY)
+        os.write(wfd, b"+" * n_tokens)
+        state = {"sem": None, "env": [], "ops": nops, "cur": None}
+        holding = [0] * k          # how many slots worker i owns (harness view)
+        blocked = [False] * k
+        cmdq = [None] * k
+        finished = []
+
+        def snap():
+            sem = state["sem"]
+            try:
+                s = {"w": sem._JobServerSemaphore__waitersCnt, "a": sem._JobServerSemaphore__acquired,
+                     "tk": len(sem._JobServerSemaphore__tokens), "pipe": fion(rfd), "envheld": len(state["env"])}
+                try:
+                    key = loop._selector.get_key(rfd)
+                    s["rd"] = bool(key.events & selectors.EVENT_READ) and key.data[0] is not None
+                except KeyError:
+                    s["rd"] = False
+                inner = sem._JobServerSemaphore__sem
+                s["v"] = inner._value
+                s["nwait"] = len(inner._waiters or ())
+                return s
+            except AttributeError as e:
+                return {"unavailable": str(e)}
+
+        class L(asyncio.SelectorEventLoop):
+            def _run_once(self):
+                while not finished and not self._ready and not self._scheduled and not self._selector.select(0):
+                    idle()
+                super()._run_once()
+
+        def idle():
+            if state["ops"] <= 0:
+                # wind down: release everything that is owned, return the child's tokens
+                for i in range(k):
+                    if holding[i] and not blocked[i]:
+                        cmdq[i].set_result("rel")
+                        return
+                if state["env"]:
+                    os.write(wfd, state["env"].pop())
+                    log.append(["ret", None, "ok", snap()])
+                    return
+                if not any(blocked):
+                    finished.append(True)
+                    for i in range(k):
+                        cmdq[i].set_result("stop")
+                    return
+                finished.append(False)      # somebody waits for ever
+                for i in range(k):
+                    if not blocked[i]:
+                        cmdq[i].set_result("stop")
+                loop.call_soon(loop.stop)
+                return
+            free = [i for i in range(k) if not blocked[i]]
+            n_cmd = r.choice([1, 1, 1, 2, 2, 3])
+            issued = False
+            r.shuffle(free)
+            for i in free[:n_cmd]:
+                state["ops"] -= 1
+                c = r.random()
+                if holding[i]:
+                    cmdq[i].set_result("rel")
+                elif c < 0.06 and not any(blocked) and not any(holding):
+                    cmdq[i].set_result("rel")          # release while nobody owns or waits for a slot: has to raise
+                else:
+                    cmdq[i].set_result("acq")
+                issued = True
+            c = r.random()
+            if c < 0.15 and fion(rfd) > 0 and len(state["env"]) < n_tokens:
+                state["env"].append(os.read(rfd, 1))
+                log.append(["take", None, "ok", snap()])
+            elif c < 0.4 and state["env"]:
+                os.write(wfd, state["env"].pop())
+                log.append(["ret", None, "ok", snap()])
+            elif not issued:
+                state["ops"] -= 1
+
+        async def worker(i):
+            sem = state["sem"]
+            while True:
+                cmdq[i] = loop.create_future()
+                c = await cmdq[i]
+                if c == "stop":
+                    return
+                if c == "acq":
+                    blocked[i] = True
+                    entry = ["acquire", i, None, None]
+                    log.append(entry)
+                    # the state right after the synchronous part is recorded by the loop hook below
+                    state["cur"] = entry
+                    await sem.acquire()
+                    blocked[i] = False
+                    holding[i] += 1
+                    if entry[2] is None:
+                        entry[2] = "got"
+                        entry[3] = snap()
+                    else:
+                        log.append(["resume", i, "ok", snap()])
+                    state["cur"] = None
+                else:
+                    try:
+                        sem.release()
+                        if holding[i]:
+                            holding[i] -= 1
+                        else:
+                            # released a slot that another task owns: that one has lost it
+                            for j in range(k):
+                                if holding[j]:
+                                    holding[j] -= 1
+                                    break
+                        log.append(["release", i, "ok", snap()])
+                    except BaseException as e:  # noqa
+                        holding[i] = 0
+                        log.append(["release", i, type(e).__name__, snap()])
+
+        import asyncio.events as aev
+        orig_run = aev.Handle._run
+
+        def handle_run(self):
+            cb = self._callback
+            is_cb = getattr(cb, "__name__", "") == "jobavailableCallback"
+            try:
+                return orig_run(self)
+            finally:
+                cur = state.get("cur")
+                if cur is not None and cur[2] is None:
+                    cur[2] = "blocked"
+                    cur[3] = snap()
+                    state["cur"] = None
+                if is_cb:
+                    log.append(["callback", None, "ok", snap()])
+        aev.Handle._run = handle_run
+        loop = L()
+        asyncio.set_event_loop(loop)
+        try:
+            state["sem"] = JobServerSemaphore((rfd, wfd), recursive)
+
+            async def main():
+                ws = [loop.create_task(worker(i)) for i in range(k)]
+                await asyncio.wait(ws)
+            try:
+                loop.run_until_complete(main())
+            except RuntimeError:
+                pass
+        finally:
+            aev.Handle._run = orig_run
+            for t in asyncio.all_tasks(loop):
+                t.cancel()
+            try:
+                loop.run_until_complete(asyncio.sleep(0))
+            except BaseException:  # noqa
+                pass
+            asyncio.set_event_loop(None)
+            loop.close()
+        end = {"pipe": fion(rfd), "holding": holding, "blocked": blocked, "complete": bool(finished and finished[0])}
+        os.close(rfd)
+        os.close(wfd)
+        return {"seed": seed, "recursive": recursive, "n": n_tokens, "k": k, "log": log, "end": end}
+    finally:
+        shutil.rmtree(tmp, ignore_errors=True)
+
+
+def sem_alone_oracle(res):
+    """the property on the semaphore alone: bounded, nothing lost, nothing duplicated, release without slot raises"""
+    out = []
+    n = res["n"]
+    rec = res["recursive"]
+    cap = n + (1 if rec else 0)
+    owners = {}
+    tag = "F-C06-1-recursive-jobserver-inflight-handover" if rec else None
+    for op, i, result, s in res["log"]:
+        if op in ("acquire",) and result == "got" or op == "resume":
+            owners[i] = owners.get(i, 0) + 1
+        if op == "release":
+            total = sum(owners.values())
+            if result == "ok":
+                if total == 0:
+                    out.append((tag or "release-without-slot-accepted", "release() succeeded although no task owns a slot"))
+                elif owners.get(i, 0):
+                    owners[i] -= 1
+                else:
+                    j = next(j for j, v in owners.items() if v)
+                    owners[j] -= 1
+            elif total > 0:
+                out.append((tag or "release-raised", "release() raised %s although %d slot(s) are owned" % (result, total)))
+        if sum(owners.values()) > cap:
+            out.append((tag or "more-owners-than-slots", "%d owners of %d slots" % (sum(owners.values()), cap)))
+        if s and "unavailable" not in s and s["pipe"] + s["tk"] + s["envheld"] != n:
+            out.append((tag or "token-count-changed", "pipe %d + held %d + child %d != %d" % (s["pipe"], s["tk"], s["envheld"], n)))
+    if res["end"]["complete"]:
+        if res["end"]["pipe"] != n:
+            out.append((tag or "token-not-given-back", "all slots released but the pipe holds %d of %d tokens" % (res["end"]["pipe"], n)))
+    else:
+        out.append((tag or "waiter-never-served", "a task waits for ever although every owner has released its slot"))
+    return out
+
+
+def sem_alone_requests(res):
+    reqs = [{"op": "sem-init", "recursive": res["recursive"], "pipe": res["n"]}]
+    for op, i, result, s in res["log"]:
+        rq = {"op": {"acquire": "acquire", "resume": "resume", "release": "release", "callback": "callback",
+                     "take": "take", "ret": "ret"}[op]}
+        if i is not None:
+            rq["t"] = i
+        reqs.append(rq)
+    reqs.append({"op": "sem-end"})
+    return reqs
+
+
+def sem_alone_compare(res, replies):
+    bad = []
+    for (op, i, result, s), rp in zip(res["log"], replies[1:]):
+        want = {"ok": "ok", "got": "got", "blocked": "blocked"}.get(result, result)
+        if rp.get("r") != want:
+            bad.append({"op": op, "t": i, "impl": result, "model": rp.get("r")})
+            break
+        if s and "unavailable" not in s:
+            d = {k: (s[k], rp.get(k)) for k in ("w", "a", "tk", "pipe", "rd", "envheld", "v", "nwait") if s.get(k) != rp.get(k)}
+            if d:
+                bad.append({"op": op, "t": i, "state": d})
+                break
+    return bad
